@@ -278,6 +278,42 @@ def load_corpus(prop):
     return out
 
 
+def deleted_space_held_uncached(ops, uncached_names=()):
+    """does the history delete a space (or a space above it) that at that moment has an uncached cells -
+    flagged by a `set_cached .. 0` op of the history, or of a name in `uncached_names` (C09's assignment)?
+    (the trigger of the known finding *-deleted-space-uncached-cells; read off the operations alone)"""
+    cells, bases, unc = {}, {}, set()
+
+    def visible(path, seen=()):
+        out = {(path, n) for n in cells.get(path, ())}
+        for b in bases.get(path, ()):
+            if b not in seen:
+                out |= visible(b, seen + (path,))
+        return out
+    for op in ops:
+        k = op[0]
+        if k == "new_space":
+            path = op[2] if op[1] == "-" else op[1] + "." + op[2]
+            cells.setdefault(path, set())
+            bases[path] = list(op[3] or [])
+        elif k == "add_bases":
+            bases.setdefault(op[1], []).extend(op[2])
+        elif k in ("new_cells", "set_formula"):
+            cells.setdefault(op[1], set()).add(op[2])
+        elif k == "rename_cells":
+            cells.setdefault(op[1], set()).add(op[3])
+        elif k == "set_cached":
+            (unc.discard if op[3] else unc.add)((op[1], op[2]))
+            cells.setdefault(op[1], set()).add(op[2])
+        elif k == "del_space":
+            for path in list(cells):
+                if path == op[1] or path.startswith(op[1] + "."):
+                    for (dp, n) in visible(path):
+                        if (dp, n) in unc or (path, n) in unc or n in uncached_names:
+                            return True
+    return False
+
+
 def merge(out, sub):
     out.failures += sub.failures
     out.disagreements += sub.disagreements
@@ -318,16 +354,17 @@ def gen_next(rng, live, cfg, prev=None, focus=None):
         return ["new_space", parent, nm, bases]
     if k == "del_space":
         return ["del_space", path]
+    ext = bool(cfg.get("ext"))
     if k == "new_cells":
         free = [n for n in W.CELLS if n not in cells]
         nm = rng.choice(free) if free and rng.random() < 0.85 else rng.choice(W.CELLS)
         if rng.random() < cfg.get("cross_names", 0.0):
             nm = rng.choice(W.REFS + W.CHILD)          # a name other spaces use for another kind
-        return ["new_cells", path, nm, W.gen_formula(rng, paths, s)]
+        return ["new_cells", path, nm, W.gen_formula(rng, paths, s, ext=ext)]
     if k == "set_formula":
         if not cells:
-            return ["new_cells", path, rng.choice(W.CELLS), W.gen_formula(rng, paths, s)]
-        return ["set_formula", path, rng.choice(cells), W.gen_formula(rng, paths, s)]
+            return ["new_cells", path, rng.choice(W.CELLS), W.gen_formula(rng, paths, s, ext=ext)]
+        return ["set_formula", path, rng.choice(cells), W.gen_formula(rng, paths, s, ext=ext)]
     if k == "set_cached":
         if cells:
             return ["set_cached", path, rng.choice(cells), rng.randrange(2)]
@@ -367,6 +404,8 @@ def gen_next(rng, live, cfg, prev=None, focus=None):
             return ["set_ref", path, nm, rng.randint(0, 9), mode]
         return ["set_ref", path, nm, rng.randint(0, 9)]
     if k == "set_param":
+        if ext and rng.random() < 0.7:
+            return ["set_param", path, gen_space_formula(rng, live, path, s)]
         return ["set_param", path, 1 if rng.random() < 0.8 else 0]
     if k == "eval_item":
         par = [(p, sp) for p, sp in spaces if sp.formula is not None and list(sp.cells)]
@@ -397,6 +436,34 @@ def gen_next(rng, live, cfg, prev=None, focus=None):
     if cells:
         return ["eval", path, rng.choice(cells), rng.choice(W.QUERY_ARGS)]
     return ["new_cells", path, rng.choice(W.CELLS), W.gen_formula(rng, paths, s)]
+
+
+def gen_space_formula(rng, live, path, s):
+    """a space formula [i, r, c, a] (W.SPACE_TEMPLATES) that mostly resolves: what it reads is a reference
+    of the parent (by attribute path), of the namespace (by name), of a child (by path), or a cells"""
+    parent = live.space(path.rsplit(".", 1)[0]) if "." in path else None
+
+    def plain(sp):
+        return [r for r in sp.refs if not r.startswith("_") and not hasattr(sp.refs[r], "_impl")]
+    ok = [1]
+    prefs = plain(parent) if parent is not None else []
+    own = plain(s)
+    ch_ref = [(c, r) for c in s.spaces for r in plain(s.spaces[c])]
+    cells = list(s.cells)
+    if prefs:
+        ok += [2, 2, 2]
+    if own:
+        ok += [3, 6]
+    if ch_ref:
+        ok += [4]
+    if cells:
+        ok += [5]
+    i = rng.choice(ok)
+    r = rng.choice(prefs if i == 2 and prefs else own or W.REFS)
+    c, a = rng.choice(W.CHILD), rng.choice(cells or W.CELLS)
+    if i == 4:
+        c, r = rng.choice(ch_ref)
+    return [i, r, c, a] if i != 1 else 1
 
 
 # ----------------------------------------------------------------------------- generic engine
@@ -435,7 +502,7 @@ def run_one(ops, out, stats, hooks, cfg, rng=None, n_ops=0, seed_ops=None):
     focus = (2 if rng.random() < 0.5 else None) if rng is not None else None
     if rng is not None and not ops:
         ops += [list(o) for o in (seed_ops if seed_ops is not None else [["set_mref", "u", 11], ["set_mref", "r", 12]])]
-        ops += motif(rng, cfg=cfg)
+        ops += motif(rng, pool=motifs_for(cfg))
     try:
         hooks.start(live, stats)
         k = 0
@@ -505,6 +572,9 @@ def run_struct(ctx, out, prop, cfg, hooks_factory, n_quick, n_thorough, rule, op
                          "distinct_nontrivial": nontrivial,
                          "rule": rule + ("; plus, after each of %d motif programs, applicable single edits (thorough: all) "
                                          "and sampled pairs, each followed by evaluating everything" % (len(motifs_for(cfg)) - 1)
+                                         + ("; extended families: every single edit after the extended motifs; (clearing edit of "
+                                            "one cells, edit of an existing reference) pairs; (reference edit, value assignment, "
+                                            "reference edit) triples; cache-flag switch then reference edit" if cfg.get("ext") else "")
                                          if enumerate_single else ""),
                          "samples": samples, "input_distribution": dict(stats),
                          "corpus_cases": len(cases) - n, "traces_validated_against_impl": len(cases)})
@@ -588,13 +658,64 @@ MOTIFS = [
 ]
 
 
+# Extended motif programs: used only by the properties whose configuration says `ext` (so that the random
+# draws of the others do not move).  Each is a dependency *shape* the base motifs do not have.
+SF = lambda i, r="t", c="X", a="f": [i, r, c, a]      # a space formula, W.SPACE_TEMPLATES
+MOTIFS_EXT = [
+    # a parametrised child whose SPACE formula reads a reference of its parent by attribute path
+    # (`_space.parent.t`); its cells read what the formula injected; one caller in the parent, one in
+    # another space that holds the child in an object-valued reference
+    [["new_space", "-", "C", []], ["set_ref", "C", "t", 3], ["new_space", "C", "X", []],
+     ["new_cells", "C.X", "f", F(2, 1, "f", "s")], ["set_param", "C.X", SF(2, "t")],
+     ["new_cells", "C", "h", F(10, 1, "f", "r", "X")],
+     ["new_space", "-", "D", []], ["set_ref", "D", "X", ["obj", "C.X"], "absolute"],
+     ["new_cells", "D", "g", F(10, 0, "f", "r", "X")]],
+    # space formulas reading by name (own reference shadowing a model-level one) and, one level down,
+    # the own reference by attribute path; the nested one is reached through the outer ItemSpace
+    [["new_space", "-", "A", []], ["set_ref", "A", "r", 4], ["new_cells", "A", "f", F(2, 1, "f", "s")],
+     ["set_param", "A", SF(3, "r")], ["new_space", "A", "Y", []], ["set_ref", "A.Y", "t", 2],
+     ["new_cells", "A.Y", "g", F(2, 2, "g", "s")], ["set_param", "A.Y", SF(6, "t")],
+     ["new_space", "-", "B", []], ["set_ref", "B", "X", ["obj", "A"], "absolute"],
+     ["new_cells", "B", "h", F(10, 1, "f", "r", "X")], ["new_cells", "A", "k", F(10, 0, "g", "r", "Y")]],
+    # a space formula reading a reference of a CHILD by attribute path and one calling a cells of the space
+    [["new_space", "-", "B", []], ["new_space", "B", "X", []], ["set_ref", "B.X", "t", 5],
+     ["new_cells", "B", "f", F(2, 1, "f", "s")], ["set_param", "B", SF(4, "t", "X")],
+     ["new_space", "-", "C", []], ["set_ref", "C", "t", 1], ["new_cells", "C", "g", F(2, 3, "g", "t")],
+     ["new_cells", "C", "h", F(2, 1, "h", "s")], ["set_param", "C", SF(5, "t", "X", "g")]],
+    # two references of a child read by attribute path by readers that also call each other:
+    # f reads X.t; g calls f and reads X.s; h reads X.t too; k calls h and reads a model-level name
+    [["new_space", "-", "D", []], ["new_space", "D", "X", []], ["set_ref", "D.X", "t", 1], ["set_ref", "D.X", "s", 2],
+     ["new_cells", "D", "f", F(3, 1, "f", "t", "X")], ["new_cells", "D", "g", F(11, 1, "f", "s", "X")],
+     ["new_cells", "D", "h", F(3, 2, "h", "t", "X")], ["new_cells", "D", "k", F(12, 1, "h", "u")]],
+    # a caller in one space, through a cells of ANOTHER space that reads a reference of its own space by
+    # name; a second caller elsewhere reaches the same cells through an object-valued reference
+    [["new_space", "-", "C", []], ["new_space", "C", "X", []], ["set_ref", "C.X", "s", 2],
+     ["new_cells", "C.X", "g", F(2, 1, "g", "s")], ["new_cells", "C", "f", F(4, 1, "g", "r", "X")],
+     ["new_space", "-", "B", []], ["set_ref", "B", "t", ["obj", "C.X.g"], "absolute"],
+     ["new_cells", "B", "h", F(9, 1, "h", "t")]],
+    # the same shape with the middle cells uncached from the start (no other cells of its space is a
+    # precedent of the callers), and a chain above the caller
+    [["new_space", "-", "C", []], ["new_space", "C", "X", []], ["set_ref", "C.X", "s", 2],
+     ["new_cells", "C.X", "g", F(2, 1, "g", "s")], ["set_cached", "C.X", "g", 0],
+     ["new_cells", "C", "f", F(4, 1, "g", "r", "X")], ["new_cells", "C", "h", F(1, 2, "f")],
+     ["new_space", "-", "B", []], ["set_ref", "B", "t", ["obj", "C.X.g"], "absolute"],
+     ["new_cells", "B", "k", F(9, 1, "k", "t")]],
+]
+
+
+def base_motifs(cfg):
+    return MOTIFS + MOTIFS_EXT if cfg and cfg.get("ext") else MOTIFS
+
+
 def motifs_for(cfg):
-    """the shared motif programs plus the ones a property adds for itself (cfg["extra_motifs"])"""
-    return MOTIFS + list((cfg or {}).get("extra_motifs", ()))
+    """the shared motif programs (with the extended ones for `ext`) plus the ones a property adds for itself
+    (cfg["extra_motifs"])"""
+    return base_motifs(cfg) + list((cfg or {}).get("extra_motifs", ()))
 
 
-def motif(rng, weights=None, cfg=None):
-    pool = motifs_for(cfg)
+def motif(rng, weights=None, pool=None, cfg=None):
+    if pool is None:
+        pool = motifs_for(cfg) if cfg is not None else MOTIFS
     if weights:
         weights = list(weights) + [1] * (len(pool) - len(weights))
     m = rng.choices(pool, weights)[0] if weights else rng.choice(pool)
@@ -612,9 +733,10 @@ def uncached_variants(m):
     return out
 
 
-def single_edits(live):
+def single_edits(live, ext=False):
     """every single structural/definition edit applicable to the live model (small-scope
-    exhaustive enumeration: each is tried after the same prefix)"""
+    exhaustive enumeration: each is tried after the same prefix); ext: more ways to clear one
+    element or one cells (one argument key, all values, a switch of the cache flag)"""
     edits = []
     spaces = W.all_spaces(live.m)
     paths = [p for p, _ in spaces]
@@ -629,6 +751,10 @@ def single_edits(live):
                 edits.append(["rename_cells", path, cn, "k" if cn != "k" else "h"])
             edits.append(["set_value", path, cn, 1, 40 + n])
             edits.append(["clear", path, cn])
+            if ext:
+                edits.append(["clear_at", path, cn, 1])
+                edits.append(["clear_all", path, cn])
+                edits.append(["set_cached", path, cn, 0 if c.is_cached else 1])
         for rn in s._own_refs:
             if not s._impl.own_refs[rn].is_derived():
                 edits.append(["set_ref", path, rn, 30 + n])
@@ -673,12 +799,65 @@ def single_edits(live):
     return out
 
 
+CLEARING = ("set_value", "clear", "clear_at", "clear_all", "set_cached", "del_cells")
+
+
+def is_clearing(e):
+    """an edit that takes held values of ONE cells away (and nothing else of the definitions the
+    other cells read)"""
+    return e[0] in CLEARING or (e[0] == "set_formula" and e[3][0] == 0)
+
+
+def ref_edits_existing(live, edits):
+    """the edits (of a `single_edits` list) that change or delete a reference that exists"""
+    out = []
+    own = {(p, rn) for p, s in W.all_spaces(live.m) for rn in s._own_refs}
+    for e in edits:
+        if e[0] in ("set_ref", "del_ref") and (e[1], e[2]) in own:
+            out.append(e)
+        elif e[0] in ("set_mref", "del_mref"):
+            out.append(e)
+    return out
+
+
+QUICK_FIRST = ("set_value", "clear", "clear_at", "set_cached", "set_formula")
+
+
+def ext_sequences(live, edits, rng, exhaustive, thorough=False, cap_pairs=24, cap_triples=6, cap_triples_ext=16):
+    """the extended scenario families (each sequence is run after the motif program with everything
+    evaluated, and followed by evaluating everything):
+      * (clearing edit of one cells, edit of an existing reference): a reader of the reference is cleared,
+        overwritten, redefined or switched, then the reference changes - the other readers must follow,
+        and a value assigned in the first step must survive unless it is the reference's own reader;
+      * (reference edit, value assignment, edit of ANOTHER reference): an assigned value must not be
+        discarded through edges its element had before it was cleared;
+    thorough tier: everything; quick tier: for the extended motifs every pair whose first edit is of the kinds
+    QUICK_FIRST and a seeded sample of the triples, for the base motifs a seeded sample of both"""
+    refed = ref_edits_existing(live, edits)
+    first = [e for e in edits if is_clearing(e)]
+    pairs = [[a, b] for a in first for b in refed]
+    setrefs = [e for e in refed if e[0] in ("set_ref", "set_mref")]
+    assigns = [e for e in edits if e[0] == "set_value"]
+    triples = [[a, v, b] for a in setrefs for b in refed if b[1:3] != a[1:3] for v in assigns]
+    if thorough:
+        return pairs + triples
+    if exhaustive:
+        pairs = [p for p in pairs if p[0][0] in QUICK_FIRST]
+    else:
+        pairs = rng.sample(pairs, min(len(pairs), cap_pairs))
+    cap = cap_triples_ext if exhaustive else cap_triples
+    triples = rng.sample(triples, min(len(triples), cap))
+    return pairs + triples
+
+
 def enumerate_edits(ctx, out, prop, hooks_factory, cfg, stats, quick_per_motif=16, pairs_per_motif=6):
     """small-scope exhaustive part: after every motif program (everything evaluated), every
     applicable single edit (quick tier: a seeded sample), followed by evaluating everything
     again; plus sampled pairs of edits.  Runs through the property's own hooks.
     With cfg["uncached_variants"] every motif program is also run with each one of its cells uncached
     (quick tier: the edits of cfg["enum_always"] plus a small sample, no pairs)."""
+    ext = bool(cfg.get("ext"))
+    nbase = len(base_motifs(cfg))
     programs = []
     for mi, m in enumerate(motifs_for(cfg)):
         if not m:
@@ -688,6 +867,7 @@ def enumerate_edits(ctx, out, prop, hooks_factory, cfg, stats, quick_per_motif=1
             for vi, v in enumerate(uncached_variants(m)):
                 programs.append(("%s.u%d" % (mi, vi), v, True))
     for mi, m, variant in programs:
+        is_ext_motif = isinstance(mi, int) and len(MOTIFS) <= mi < nbase
         prefix = [["set_mref", "u", 11], ["set_mref", "r", 12]] + [list(o) for o in m] + [["evalall"]]
         close_all()
         live = W.Live("M")
@@ -697,7 +877,13 @@ def enumerate_edits(ctx, out, prop, hooks_factory, cfg, stats, quick_per_motif=1
                     eval_everything(live)
                 else:
                     live.apply(op)
-            ok, edits = observe(out, hist_json(prefix), "after a motif program", single_edits, live)
+            ok, edits = observe(out, hist_json(prefix), "after a motif program", single_edits, live, ext)
+            rng = ctx.rng("enum", prop, mi)
+            extseqs, refed = [], []
+            if ok:
+                extseqs = ext_sequences(live, edits, ctx.rng("enum-ext", prop, mi), exhaustive=is_ext_motif,
+                                        thorough=ctx.tier == "thorough") if ext and not variant else []
+                refed = ref_edits_existing(live, edits) if is_ext_motif else []
         finally:
             live.close()
             close_all()
@@ -705,12 +891,12 @@ def enumerate_edits(ctx, out, prop, hooks_factory, cfg, stats, quick_per_motif=1
             continue
         if variant:
             edits = [e for e in edits if e[0] != "set_value"]
-        rng = ctx.rng("enum", prop, mi)
-        extra = isinstance(mi, int) and mi >= len(MOTIFS)
+        extra = isinstance(mi, int) and mi >= nbase
         per = quick_per_motif if not variant else 4
         if extra and cfg.get("extra_light"):
             per = 6
         chosen = edits if ctx.tier == "thorough" else rng.sample(edits, min(len(edits), per))
+        chosen = chosen + [e for e in refed if e not in chosen]     # extended motifs: every edit of an existing reference
         chosen = chosen + [e for e in edits if e[0] in cfg.get("enum_always", ()) and e not in chosen]
         if extra:
             # a property's own motifs: also every edit of the kinds it names (e.g. adding ONE base anywhere)
@@ -731,6 +917,8 @@ def enumerate_edits(ctx, out, prop, hooks_factory, cfg, stats, quick_per_motif=1
         # a base edit followed by an unrelated structural edit (orders must survive graph copies)
         for e in [e for e in edits if e[0] == "add_bases" and len(e[2]) == 2][:(99 if ctx.tier == "thorough" else 4 if not light else 0)]:
             seqs.append([e, ["new_space", "-", "D" if not any(p == "D" for p in [x[2] for x in m if x[0] == "new_space"]) else "B", []]])
+        seqs += extseqs
+        stats["enumerated_ext_sequences"] += len(extseqs)
         for seq in seqs:
             ops = [list(o) for o in prefix] + [list(o) for o in seq] + [["evalall"]]
             sub = core.Outcome()
